@@ -57,6 +57,9 @@ MODE = {'set': 0, 'seq': 1, 'acc': 2}
 _VIEW_READS = ['riface', 'renderer', 'defperm', 'policy', 'csrfopts', 'mapper', 'derivers', 'accept']
 
 
+GUARDS = {'set_authentication_policy#0': ['policy']}
+
+
 def R(disc=(), reads=(), writes=(), decl=()):
     return {'disc': list(disc), 'reads': list(reads), 'writes': list(writes), 'decl': list(decl)}
 
@@ -82,7 +85,11 @@ DECLARED = {
     'add_route#0': R(reads=['preds'], writes=[('routes', 'seq')], decl=['routes']),
     'add_route#1': R(writes=[('riface', 'set')]),
     'set_security_policy#0': R(writes=[('policy', 'set')]),
-    'set_authentication_policy#0': R(writes=[('authn', 'set'), ('policy', 'set')]),
+    # legacy API.  Its callable also reads ISecurityPolicy -- a key of its OWN phase -- only to refuse the
+    # combination with set_security_policy (ConfigurationError): whether that refusal happens depends on the
+    # order of the two statements.  Outside the directive families of the property; accepted by the monitor
+    # as GUARDS, not part of the H2 table (see NOTES.md).
+    'set_authentication_policy#0': R(reads=['authz'], writes=[('authn', 'set'), ('policy', 'set')]),
     'set_authorization_policy#0': R(writes=[('authz', 'set')]),
     'set_authorization_policy#1': R(reads=['authn']),
     'set_default_permission#0': R(writes=[('defperm', 'set')]),
